@@ -53,7 +53,7 @@ def gen_pph(rng):
     return raw, exp
 
 
-def gen_open(rng):
+def gen_open(rng, adversarial=False):
     params = []
     for _ in range(rng.below(4)):
         if rng.chance(1, 6):
@@ -61,7 +61,10 @@ def gen_open(rng):
         else:
             caps = []
             for _ in range(1 + rng.below(3)):
-                c = rng.choice([1, 1, 65, 69, 2, 64, 70, 73, 128, 200])
+                if adversarial and rng.chance(1, 2):
+                    caps.append(c03.adversarial_cap(rng))       # count / length fields at their extremes: the check has to refuse, not panic
+                    continue
+                c = rng.choice([1, 1, 65, 69, 2, 64, 70, 73, 128, 200, 3, 130, 5, 71, 75])
                 caps.append((c, c03.valid_cap_value(c, rng)))
             if sum(2 + len(v) for _, v in caps) <= 255:
                 params.append(('caps', caps))
@@ -263,6 +266,13 @@ def run(ctx):
         for _ in range(2):
             cases.append(mutate(rng, b))
             meta.append((None, None))
+    # Peer Up messages whose OPENs carry capabilities with count / length fields at their extremes: refused or accepted, never a panic
+    for _ in range(500 if quick else 15000):
+        h, _he = gen_pph(rng)
+        la = rng.addr(True) if rng.chance(1, 2) else bytes(12) + rng.addr(False)
+        s_, r_ = gen_open(rng, adversarial=rng.chance(1, 2)), gen_open(rng, adversarial=True)
+        cases.append(common(3, h + la + struct.pack('>HH', rng.below(65536), rng.below(65536)) + s_ + r_ + enc_tlvs(gen_tlvs(rng))))
+        meta.append((None, None))
     for _ in range(600 if quick else 20000):
         n = rng.choice([0, 1, 5, 6, 7, 47, 48, 49, 60, 100])
         b = bytearray(rng.bytes(n))
